@@ -44,6 +44,7 @@ impl Prop for C10 {
     }
 
     fn gen(&self, rng: &mut Rng, n: usize, tier: Tier, out: &mut Vec<String>) {
+        srv_conn::gen_systematic(&srv_conn::lens(), out);
         for _ in 0..n {
             match rng.weighted(&[5, 3, 2]) {
                 0 => gen_srv(rng, tier, out),
